@@ -25,6 +25,7 @@ CLAIMED = {
  "C15": ("DESIGN.md §4 C15", "The real DistributeOnce / distributeForLog over up to 3 logs with arbitrary witness answers and arbitrary distributor answers (status, transport error, redirect): a PUT happens iff the witness's bytes verify under the log's key and origin and carry the witness signature; method, exact URL and exact body are proved; all logs are attempted; the overall error and the success counter are compared with an independent account of the answers.", "url.Parse(x).String() modelled as x; PathEscape uninterpreted; <= 2 / 3 logs", TECH + "; theory of strings for URLs"),
  "C16": ("DESIGN.md §4 C16", "The real getCheckpoint / getLogs handlers over the real witness and both stores, before and after one arbitrary update, and the real client GetLatestCheckpoint over an arbitrary HTTP answer: 200 with exactly the stored bytes, 404 while nothing is held or for unknown ids, log list = ids with a stored checkpoint (a refused first submission adds none), client maps 404 to os.ErrNotExist.", "mux route matching not encoded; list order abstracted to insertion order", TECH),
  "C18": ("DESIGN.md §4 C18", "For every tile level >= 0, every index 0..2^63-1 and width 1..256 the URL requested by the real ReadTiles -> TileData -> tilePath -> HTTPFetcher path equals base + '/' + the real tlog.Tile.Path(), decided for all values at once (7 path levels unrolled, checked by the loop bound); the reference prover's proofs are accepted by the real verifier for all size pairs up to the bound.", "decimal formatting is an uninterpreted function shared by both sides; tile byte decoding in tlog.TileHashReader is outside the claim", TECH),
+ "C19": ("DESIGN.md §4 C19", "Every harness arms all implicit panic sites (nil dereference, index and slice bounds, failed type assertion, division by zero, slice-to-array conversion, explicit panic) and loop/recursion bounds; a feasible panic path or an exceeded bound is a violation with a solver model. Dedicated harnesses: the real ServeHTTP + parseBody on arbitrary bytes with arbitrary witness answers (status always documented, exactly one answer), Proof.Unmarshal on arbitrary bytes, dataToLeaves on arbitrary bytes, one full real feed cycle of the SumDB and Pixel feeders (FeedLog) against log-signed checkpoints with hostile sizes and root-hash lengths running into the real tlog.ProveTree, the Pixel tile reader, plus the feeder, distributor and bastion harnesses of C13/C15/C10.", "bounded; panics inside contract-modelled library calls, socket timeouts, HTTP/2, JSON decoding are outside; this is not fuzzing", TECH + "; unwinding assertions"),
  "C20": ("DESIGN.md §4 C20", "Counter increments recorded through a recording MetricFactory are compared with the outcome on every path: attempt iff known log, success iff accepted, invalid-consistency iff ErrInvalidProof, inconsistent iff ErrRootMismatch, no others, label = log id.", "per-step statement; histories follow by summation", TECH),
 }
 
